@@ -64,8 +64,9 @@ func xCertificate() tls.Certificate {
 }
 
 type xObserved struct {
-	broken   string // non-empty: the harness' own assumptions failed (environment), not the code
-	c2s, s2c []byte
+	broken     string // non-empty: the harness' own assumptions failed (environment), not the code
+	gotRequest bool   // handshake completed and the client's 16-byte request arrived
+	c2s, s2c   []byte
 }
 
 // sleepOrDone: false if the client finished first.
@@ -120,6 +121,7 @@ func xServeTLS(ln net.Listener, chunks [][]byte, gaps []int, done <-chan struct{
 		o.broken = "request: " + err.Error()
 		return
 	}
+	o.gotRequest = true
 	tc.SetDeadline(time.Time{})
 	for i, ch := range chunks {
 		if !sleepOrDone(gaps[i], done) {
@@ -143,6 +145,13 @@ func xServeQUIC(ln *scion.QUICListener, chunks [][]byte, gaps []int, done <-chan
 	defer func() { out <- o }()
 	ctx, cancel := context.WithTimeout(context.Background(), xStepTimeout)
 	defer cancel()
+	go func() { // a client that gave up before the exchange: do not wait for it
+		select {
+		case <-done:
+			cancel()
+		case <-ctx.Done():
+		}
+	}()
 	conn, err := ln.Accept(ctx)
 	if err != nil {
 		o.broken = "accept: " + err.Error()
@@ -162,6 +171,7 @@ func xServeQUIC(ln *scion.QUICListener, chunks [][]byte, gaps []int, done <-chan
 		conn.CloseWithError(1, "no request")
 		return
 	}
+	o.gotRequest = true
 	aborted := false
 	for i, ch := range chunks {
 		if !sleepOrDone(gaps[i], done) {
@@ -256,6 +266,7 @@ func xFetch(t []string) string {
 
 	done := make(chan struct{})
 	obs := make(chan xObserved, 1)
+	var stopListening func()
 	f := &ntske.Fetcher{}
 	f.Log = nolog
 	f.TLSConfig = tls.Config{InsecureSkipVerify: true, ServerName: host, MinVersion: tls.VersionTLS13}
@@ -271,6 +282,7 @@ func xFetch(t []string) string {
 			return "harness-assumption-broken listen-quic:" + strings.ReplaceAll(err.Error(), " ", "_")
 		}
 		defer ln.Close()
+		stopListening = func() {} // Accept is cancelled through done
 		go xServeQUIC(ln, chunks, gaps, done, obs)
 		f.QUIC.Enabled = true
 		f.QUIC.DaemonAddr = ""
@@ -282,6 +294,7 @@ func xFetch(t []string) string {
 			return "harness-assumption-broken listen:" + strings.ReplaceAll(err.Error(), " ", "_")
 		}
 		defer ln.Close()
+		stopListening = func() { ln.Close() }
 		go xServeTLS(ln, chunks, gaps, done, obs)
 		_, f.Port, _ = net.SplitHostPort(ln.Addr().String())
 	}
@@ -305,14 +318,21 @@ func xFetch(t []string) string {
 		return "harness-assumption-broken fetch-stuck"
 	}
 	close(done)
+	stopListening()
 	var o xObserved
 	select {
 	case o = <-obs:
 	case <-time.After(2 * xStepTimeout):
 		return "harness-assumption-broken peer-stuck"
 	}
-	if o.broken != "" {
-		return "harness-assumption-broken " + strings.ReplaceAll(o.broken, " ", "_")
+	if !o.gotRequest {
+		// no exchange took place (connection / handshake did not complete in time on a loaded
+		// machine, ...): nothing about the response path was observed, whatever the client says
+		why := o.broken
+		if res.err != nil {
+			why += " client: " + res.err.Error()
+		}
+		return "harness-assumption-broken no-exchange: " + strings.ReplaceAll(why, " ", "_")
 	}
 	if res.err != nil {
 		return "err " + xErrClass(res.err, overQUIC)
@@ -744,6 +764,26 @@ func GenPaused(c *lib.Ctx) {
 		}
 	}
 
+	// --- messages that are refused or differ in structure (error record, unknown critical
+	// record, reordered, record dropped, tail after the end): the verdict must not depend on
+	// the timing either
+	for mi := c.Scale(2, 12); mi > 0; mi-- {
+		rs := mutate(r, baseMsg(r, 1+r.Intn(4), true), c)
+		b := flat(rs)
+		if len(b) < 2 {
+			continue
+		}
+		host := hosts[mi%len(hosts)]
+		tr, defPort := "tls", uint16(123)
+		if mi%4 == 0 {
+			tr, defPort = "quic", 10123
+		}
+		want := wantOf(rs, host, defPort)
+		for k := c.Scale(1, 4); k > 0; k-- {
+			add(tr, host, b, []int{1 + r.Intn(len(b)-1)}, []int{0, long[r.Intn(len(long))]}, want, "other-verdicts:random-offset")
+		}
+	}
+
 	// --- run: every distinct op once, all at the same time (each has its own listener)
 	var order []string
 	seen := map[string]bool{}
@@ -770,6 +810,13 @@ func GenPaused(c *lib.Ctx) {
 	wg.Wait()
 	answer := map[string]string{}
 	for i, op := range order {
+		if ans[i] == "err timeout" {
+			// a timeout may be the environment's (a machine so loaded that the QUIC idle
+			// timeout or a handshake timer fires): once more, alone; a deadline of the code
+			// under test fires again
+			c.Count("paused:timeout-retried-in-isolation")
+			ans[i] = lib.Try(func() string { return Exec(strings.Fields(op)) })
+		}
 		if strings.HasPrefix(ans[i], "harness-assumption-broken") {
 			// environment (ports, load): once more, alone
 			c.Count("paused:retried-in-isolation")
